@@ -6,6 +6,8 @@ import CruxVerif.Props.C06
 #print axioms Props.C06.late_resolve_inert
 #print axioms Props.C06.dropped_request_unresolvable
 #print axioms Props.C06.hosting_ordered_over_runs
+#print axioms Props.C06.hosting_ordered_under_core
+#print axioms Props.C06.command_never_writes_core_queues
 #print axioms Props.C06.run_is_contained
 #print axioms Props.C06.drop_is_contained
 #print axioms Props.C06.poll_keeps_own_slab
